@@ -261,7 +261,8 @@ class Package:
         if key not in cache:
             owner = self.resolve(cls, meth)[0] or cls          # an inherited method is read where it is defined
             fn = copy.deepcopy(self.expanded(owner, meth, keep) if expand else self.method(owner, meth))
-            cache[key] = fold_static(self.with_class_constants(cls, fn))
+            from .normalize import namedtuple_tables
+            cache[key] = fold_static(self.with_class_constants(cls, fn), namedtuple_tables(self.modules[self.cls(owner).file]))
         return cache[key]
 
     def subclasses(self, base: str) -> list:
